@@ -431,6 +431,15 @@ class SubsetState(object):
     def __init__(self):
         pass
 
+    def __setattr__(self, name, value):
+        # Masks are cached (see _clear_mask_caches), including the masks of
+        # composite states that contain this one, so changing an attribute
+        # of an existing subset state has to invalidate them
+        changed = name in self.__dict__
+        object.__setattr__(self, name, value)
+        if changed:
+            _clear_mask_caches()
+
     @property
     def attributes(self):
         """
@@ -667,6 +676,7 @@ class RoiSubsetState(RoiSubsetStateNd):
     @xatt.setter
     def xatt(self, value):
         self._atts[0] = value
+        _clear_mask_caches()
 
     @property
     def yatt(self):
@@ -678,6 +688,7 @@ class RoiSubsetState(RoiSubsetStateNd):
     @yatt.setter
     def yatt(self, value):
         self._atts[1] = value
+        _clear_mask_caches()
 
     def copy(self):
         result = RoiSubsetState()
@@ -1888,6 +1899,7 @@ class RoiSubsetState3d(RoiSubsetStateNd):
     @xatt.setter
     def xatt(self, value):
         self._atts[0] = value
+        _clear_mask_caches()
 
     @property
     def yatt(self):
@@ -1899,6 +1911,7 @@ class RoiSubsetState3d(RoiSubsetStateNd):
     @yatt.setter
     def yatt(self, value):
         self._atts[1] = value
+        _clear_mask_caches()
 
     @property
     def zatt(self):
@@ -1910,6 +1923,7 @@ class RoiSubsetState3d(RoiSubsetStateNd):
     @zatt.setter
     def zatt(self, value):
         self._atts[2] = value
+        _clear_mask_caches()
 
     def copy(self):
         result = RoiSubsetState3d()
